@@ -652,6 +652,8 @@ def histories(pm: ProgramModel, ctx: Ctx, mb: ModelBuilder) -> None:
         "GlencoeReader": ("GLENCOE", _json.dumps(glencoe_doc(ref)), _json.dumps(glencoe_doc(bare, ctcs=False))),
         "AFMReader": ("AFM", afm_doc(ref), afm_doc(bare)),
     }
+    from .c02 import after_failure
+    after_failure(pm, ctx, {r_: [("reference", v_[1], None)] for r_, v_ in docs.items() if pm.has_cls(r_)}, rule="C09-REUSE")
     for reader, (tag, with_ctcs, without) in docs.items():
         if not pm.has_cls(reader):
             continue
